@@ -18,7 +18,7 @@ META = dict(
                       "square_root_mod_prime(a, p): every odd prime p <= 61 plus 73, 89, 97 "
                       "(p = 3 mod 4, 5 mod 8 and 1 mod 8 all occur) with a in [0, p) symbolic; "
                       "inverse_mod(a, m): m in [2, 61] prime and composite, a in (-2^9, 2^9)",
-                thorough="n <= 255, p <= 257"),
+                thorough="n <= 127, p <= 127, m <= 127"),
     stubs=["pow(a, -1, m) (the interpreter's own modular inverse, which inverse_mod returns on "
            "Python >= 3.8): table of inverses mod m; ValueError when gcd(a, m) != 1 "
            "(CPython's contract, trusted)"],
@@ -141,13 +141,13 @@ def _primes(lo, hi):
 
 def jobs(tier, seed):
     js = []
-    nmax = 63 if tier == "quick" else 255
+    nmax = 63 if tier == "quick" else 127
     for n in range(3, nmax + 1, 2):
         js.append(Job("jacobi/n%d" % n, "harness.c15:jacobi_job", n=n))
-    ps = _primes(3, 61) + [73, 89, 97] if tier == "quick" else _primes(3, 257)
+    ps = _primes(3, 61) + [73, 89, 97] if tier == "quick" else _primes(3, 127)
     for p in ps:
         js.append(Job("sqrt/p%d" % p, "harness.c15:sqrt_job", p=p))
-    for m in (range(2, 62) if tier == "quick" else range(2, 256)):
+    for m in (range(2, 62) if tier == "quick" else range(2, 128)):
         js.append(Job("inverse/m%d" % m, "harness.c15:inverse_job", m=m))
     return js
 
